@@ -1,4 +1,5 @@
 import SSVerif.Model.SearchLex
+import SSVerif.Model.LexFlatHyps
 import SSVerif.Generated.HistConsts
 import Std.Data.HashMap
 import Driver.Util
@@ -7,6 +8,8 @@ import Driver.Util
 `fsg_search_step` and after `fsg_search_finish`) and evaluates the model's own decidable predicates:
 
 * `R lt`      `LexTreeOK` on the dumped lextree (+ every sibling chain ends),
+* `R lexhyps` `lexHypsB M li` (Model/LexFlatHyps.lean): the decidable hypotheses of the C02 lextree = flat-network theorems, with `li` the
+  dumped `dict2pid` tables and `M` the flat model from the DIRECT model-definition lookups (`D*` lines) for the same triphones,
 * `R pre`     `AllCleared` on the state before `fsg_search_start`,
 * `R start`   `startRelB` (pre-state → state after start) and `searchInvB`,
 * `R step k`  `stepRelB` (state after k−1 frames → state after k frames) and `searchInvB`; and, for the exact
@@ -80,6 +83,11 @@ structure Utt where
   ldTab : Std.HashMap Nat (Array Nat) := {}
   lnTab : Std.HashMap (Nat × Nat) Nat := {}
   lsTab : Std.HashMap Nat (Array Nat × Array Nat) := {}
+  -- the DIRECT model-definition lookups (bin_mdef_phone_id_nearest + pid2ssid) for the same triphones: the flat model of C02
+  drTab : Std.HashMap Nat (Array Nat) := {}
+  ddTab : Std.HashMap Nat (Array Nat) := {}
+  dnTab : Std.HashMap (Nat × Nat × Nat) Nat := {}
+  dsTab : Std.HashMap Nat (Array Nat) := {}
   noDictWord : Bool := false
   cur : Option Dump := none
   prev : Option SState := none
@@ -144,6 +152,70 @@ def buildCompare (u : Utt) (g : Fsg) : String :=
       | none => "none"
       | some n => s!"(owner={n.owner},leaf={n.leaf},link={n.link},succ={n.succ},sib={n.sibling},ci={n.ciExt},ssid={n.ssid},tmat={n.tmatid},ppos={n.ppos},ctxt={n.ctxt},lp={n.logs2prob})"
     s!"0 sizes={m.nodes.size}/{lt.nodes.size} roots={b01 (m.root == lt.root)} first-diff={i} model={sh m.nodes[i]?} real={sh lt.nodes[i]?}"
+/-- the flat model of C02 (`FlatNet.Model`) for this case: the arcs and words of the search FSG, and the DIRECT
+model-definition lookups (`D*` lines; `none` outside the dumped rows, so nothing is assumed about them) -/
+def flatModel (u : Utt) : SSVerif.FlatNet.Model :=
+  let row (t : Std.HashMap Nat (Array Nat)) (k i : Nat) : Option Nat := match t[k]? with | some a => a[i]? | none => none
+  { sil := u.sil, start := u.start, final := 0,
+    arcs := u.arcs.toList.map fun l =>
+      ({ src := l.src, dst := l.dst, logp := l.logp, wid := (if l.wid < (0 : Int) then none else some (Int.toNat l.wid)) } : SSVerif.FlatNet.Arc),
+    word := fun w => (u.words[w]?).map fun wi => { filler := wi.dictFiller, pron := wi.pron },
+    ssid := fun ci lc rc wpos =>
+      if wpos = SSVerif.Generated.Search.wposSingle then (if rc = u.sil then row u.drTab ci lc else none)
+      else if wpos = SSVerif.Generated.Search.wposBegin then row u.ddTab (ci * u.nCi + rc) lc
+      else if wpos = SSVerif.Generated.Search.wposEnd then row u.dsTab (ci * u.nCi + lc) rc
+      else if wpos = SSVerif.Generated.Search.wposInternal then u.dnTab[(ci, lc, rc)]?
+      else none,
+    ciSsid := fun p => (u.ciTab[p]?).map (·.1), ciTmat := fun p => (u.ciTab[p]?).map (·.2), wip := u.wip, pip := u.pip }
+
+/-- `R lexhyps`: the decidable hypotheses of the C02 lextree / flat-network theorems (`lexHypsB`, Model/LexFlatHyps.lean) on
+this case; `fsgOf M = g` needs every null arc to carry wid −1 (reported as the second number); then which clauses hold, the
+number of word arcs and of word-internal (ssid, tmat) pairs, and on failure the first offending arc / conflicting pair -/
+def lexHypsReport (u : Utt) : String :=
+  let M := flatModel u
+  let li := lexIn u
+  let ok := SSVerif.LexFlat.lexHypsB M li
+  let nullOk := u.arcs.all fun l => l.wid ≥ -1
+  let which := String.join ((SSVerif.LexFlat.lexHypsWhich M li).map b01)
+  let pairs := SSVerif.LexFlat.intPairs M li
+  let nWordArcs := (M.arcs.filter fun a => a.wid.isSome).length
+  let detail :=
+    if ok then "-" else
+    let badArc := M.arcs.find? fun a => !(decide (SSVerif.LexFlat.arcWordP M li a))
+    let arcS := match badArc with
+      | none => "-"
+      | some a =>
+        match a.wid with
+        | none => "-"
+        | some wid =>
+          match M.word wid with
+          | none => s!"wid{wid}:unknown"
+          | some wd =>
+            let fields : List Bool :=
+              [decide ((li.word wid).pron = wd.pron), decide ((li.word wid).fsgFiller = wd.filler), decide (wd.pron ≠ []),
+               decide (∀ p ∈ wd.pron, p < li.nCi), decide ((li.word wid).dictFiller = wd.filler),
+               decide (∀ k, k < wd.pron.length → SSVerif.LexFlat.optIs (M.ciTmat (wd.pron.getD k 0)) (li.tmat (wd.pron.getD k 0))),
+               decide (wd.pron.length = 1 → SSVerif.LexFlat.optIs (M.ciSsid (wd.pron.getD 0 0)) (li.ciSsid (wd.pron.getD 0 0))),
+               decide (wd.pron.length = 1 → ∀ l, l < li.nCi →
+                 SSVerif.LexFlat.optIs (M.ssid (wd.pron.getD 0 0) l M.sil SSVerif.Generated.Search.wposSingle) (li.lrdiph (wd.pron.getD 0 0) l)),
+               decide (2 ≤ wd.pron.length → ∀ l, l < li.nCi →
+                 SSVerif.LexFlat.optIs (M.ssid (wd.pron.getD 0 0) l (wd.pron.getD 1 0) SSVerif.Generated.Search.wposBegin)
+                   (li.ldiph (wd.pron.getD 0 0) (wd.pron.getD 1 0) l)),
+               decide (∀ k, k < wd.pron.length - 2 →
+                 SSVerif.LexFlat.optIs (M.ssid (wd.pron.getD (k + 1) 0) (wd.pron.getD k 0) (wd.pron.getD (k + 2) 0) SSVerif.Generated.Search.wposInternal)
+                   (li.internal (li.word wid).dictWid (k + 1))),
+               decide (2 ≤ wd.pron.length → ∀ r, r < li.nCi →
+                 SSVerif.LexFlat.optIs (M.ssid (wd.pron.getD (wd.pron.length - 1) 0) (wd.pron.getD (wd.pron.length - 2) 0) r SSVerif.Generated.Search.wposEnd)
+                   (li.rcSsid (wd.pron.getD (wd.pron.length - 1) 0) (wd.pron.getD (wd.pron.length - 2) 0)
+                     (li.rcMap (wd.pron.getD (wd.pron.length - 1) 0) (wd.pron.getD (wd.pron.length - 2) 0) r)))]
+            s!"wid{wid}:pron={wd.pron}:" ++ String.join (fields.map b01)
+    let badPair := pairs.find? fun pr => SSVerif.LexFlat.tmOf M li pr.1 != pr.2
+    let pairS := match badPair with
+      | none => "-"
+      | some pr => s!"ssid{pr.1}:tmat{pr.2}/first{SSVerif.LexFlat.tmOf M li pr.1}"
+    s!"arc={arcS};pair={pairS}"
+  s!"{b01 ok} {b01 nullOk} {which} {nWordArcs} {pairs.length} {detail}"
+
 def fsg (u : Utt) : Fsg := { links := u.arcs, start := u.start, final := 0, filler := [] }
 
 def mkState (u : Utt) (d : Dump) : SState :=
@@ -260,6 +332,7 @@ def finishDump (u : Utt) (d : Dump) : Utt := Id.run do
   if !u.ltDone then
     out := out ++ [s!"R lt {b01 (decide (LexTreeOK lt g))} {b01 lt.chainsEndB} {lt.nodes.size} {b01 (!u.mpxOrOdd)}"]
     out := out ++ [s!"R build {buildCompare u g}"]
+    out := out ++ [s!"R lexhyps {lexHypsReport u}"]
     out := out ++ [s!"R consts {b01 (u.worst == SSVerif.Generated.Search.worstScore && u.shift == SSVerif.Generated.senscrShift && u.tmatWorst == SSVerif.Generated.Search.tmatWorstScore)}"]
     u := { u with ltDone := true }
   let s' := mkState u d
@@ -349,6 +422,13 @@ def feed (u : Utt) (ws : List String) : Utt :=
   | "LS" :: ci :: lc :: _n :: rest =>
     let v := (rest.filterMap parseNat).toArray
     { u with lsTab := u.lsTab.insert ((parseNat ci).getD 0 * u.nCi + (parseNat lc).getD 0) (v.extract 0 u.nCi, v.extract u.nCi v.size) }
+  | "DR" :: ci :: rest => { u with drTab := u.drTab.insert ((parseNat ci).getD 0) (rest.filterMap parseNat).toArray }
+  | "DD" :: ci :: rc :: rest =>
+    { u with ddTab := u.ddTab.insert ((parseNat ci).getD 0 * u.nCi + (parseNat rc).getD 0) (rest.filterMap parseNat).toArray }
+  | ["DN", ci, lc, rc, ssid] =>
+    { u with dnTab := u.dnTab.insert ((parseNat ci).getD 0, (parseNat lc).getD 0, (parseNat rc).getD 0) ((parseNat ssid).getD 0) }
+  | "DS" :: ci :: lc :: rest =>
+    { u with dsTab := u.dsTab.insert ((parseNat ci).getD 0 * u.nCi + (parseNat lc).getD 0) (rest.filterMap parseNat).toArray }
   | "T" :: id :: rest =>
     { u with tmats := ((parseNat id).getD 0, rest.filterMap parseNat) :: u.tmats }
   | ["S", "end"] =>
@@ -420,7 +500,7 @@ partial def loop (hin : IO.FS.Stream) (hout : IO.FS.Stream) (u : Utt) : IO Unit 
   | [] => loop hin hout u
   | ">" :: _ => loop hin hout u
   | w :: _ =>
-    if ["K", "SF", "SA", "LT", "P", "R", "T", "S", "A", "M", "E", "X", "V", "LI", "LC", "LW", "LR", "LD", "LN", "LS"].contains w then loop hin hout (feed' u ws)
+    if ["K", "SF", "SA", "LT", "P", "R", "T", "S", "A", "M", "E", "X", "V", "LI", "LC", "LW", "LR", "LD", "LN", "LS", "DR", "DD", "DN", "DS"].contains w then loop hin hout (feed' u ws)
     else loop hin hout u      -- replies of the other harness commands
 
 def main : IO Unit := do
